@@ -1781,6 +1781,14 @@ impl<'a> Query<'a> {
             s += " ?";
             s += name;
         }
+        if !self.assignments.is_empty() {
+            s += " WITH\n";
+            for assignment in self.assignments() {
+                s.push('\t');
+                s += &assignment.to_string()?;
+                s.push('\n');
+            }
+        }
         if !self.constraints.is_empty() {
             s += " WHERE\n";
             for (constraint, attributes) in self.constraints_with_attributes() {
@@ -4572,6 +4580,44 @@ impl<'a> Assignment<'a> {
             querystring = &querystring[1..].trim_start();
         }
         Ok((assignment, querystring))
+    }
+
+    /// Serialize the assignment to a (partial) STAMQL String
+    pub fn to_string(&self) -> Result<String, StamError> {
+        match self {
+            Self::Id(id) => Ok(format!("ID \"{}\";", id)),
+            Self::Target { name, offset } => {
+                let mut s = format!("TARGET ?{}", name);
+                if let Some(offset) = offset {
+                    s += &format!(" OFFSET {} {}", offset.begin, offset.end);
+                }
+                s.push(';');
+                Ok(s)
+            }
+            Self::ComplexTarget(SelectorKind::CompositeSelector) => Ok("COMPOSITE".to_string()),
+            Self::ComplexTarget(SelectorKind::MultiSelector) => Ok("MULTI".to_string()),
+            Self::ComplexTarget(SelectorKind::DirectionalSelector) => {
+                Ok("DIRECTIONAL".to_string())
+            }
+            Self::Data { set, key, value } => match value {
+                DataValue::Null => Ok(format!("DATA \"{}\" \"{}\";", set, key)),
+                DataValue::String(v) => Ok(format!("DATA \"{}\" \"{}\" \"{}\";", set, key, v)),
+                DataValue::Bool(v) => Ok(format!("DATA \"{}\" \"{}\" {};", set, key, v)),
+                DataValue::Int(v) => Ok(format!("DATA \"{}\" \"{}\" {};", set, key, v)),
+                DataValue::Float(v) => Ok(format!("DATA \"{}\" \"{}\" {};", set, key, v)),
+                _ => Err(StamError::QuerySyntaxError(
+                    format!(
+                        "There is no query syntax yet for this value in an assignment: {:?}",
+                        value
+                    ),
+                    "Assignment::to_string()",
+                )),
+            },
+            _ => Err(StamError::QuerySyntaxError(
+                format!("There is no query syntax yet for this assignment: {:?}", self),
+                "Assignment::to_string()",
+            )),
+        }
     }
 
     fn closed(querystring: &str) -> bool {
